@@ -773,11 +773,52 @@ def gen_tryreserve_scripts(tier, seed, variant):
             out.append(gen_map.make_script(rng, f"r{seed}_{i}", faults=0.3, arms=["refuse_nth"]))
     return "".join(out)
 
+def c12_layout_probe(run):
+    """The element types of the harness end at 200 bytes; the overflow clause of C12 for ENORMOUS
+    element types (table size within a few bytes of isize::MAX) is probed through the hook wrapper
+    of TableLayout::calculate_layout_for -- the very function try_reserve consults -- on a grid of
+    (element size, bucket count) pairs whose total lies within +-48 bytes of isize::MAX, judged by the
+    layout validity rule (independent of the model)."""
+    out = []
+    ok, exe = H.build_harness("sse2-debug")
+    if not ok:
+        return out
+    gw = 16
+    qs = []
+    for k in range(0, 40):
+        b = 1 << k
+        for al in (16, 64):
+            for d in range(-48, 49, 1 if k < 6 else 7):
+                s = (ISIZE_MAX + d - b - gw) // b
+                if s >= 1:
+                    qs.append(f"layout {s} {al} {b}")
+    qp = os.path.join(run.wdir, "q_layout.txt"); ap = os.path.join(run.wdir, "a_layout.txt")
+    open(qp, "w").write("\n".join(qs) + "\n")
+    rc = subprocess.run([exe, "arith"], stdin=open(qp), stdout=open(ap, "w"), stderr=subprocess.PIPE)
+    n = 0
+    for line in open(ap):
+        if " = " not in line:
+            continue
+        n += 1
+        viol = c17_oracle(gw, line.rstrip("\n"))
+        if viol and len(out) < 3:
+            f = H.Finding("R-FAIL", f"layout probe: try_reserve on such a table would not report CapacityOverflow correctly: {viol}", None, None)
+            f.replay_hint = f"echo '{line.split(' = ')[0]}' | /verif/harness/target-sse2-debug/debug/hbx arith"
+            out.append(f)
+    if rc.returncode != 0 or n < len(qs):
+        bad = qs[n] if n < len(qs) else "?"
+        f = H.Finding("R-FAIL", f"layout probe: the layout computation panicked or aborted on `{bad}` (an invalid Layout was constructed?): {rc.stderr.decode('utf-8', 'replace')[-200:]}", None, None)
+        f.replay_hint = f"echo '{bad}' | /verif/harness/target-sse2-debug/debug/hbx arith"
+        out.append(f)
+    run.layout_probe_queries = n
+    return out
+
 def check_c12(run):
+    run.extra_findings = c12_layout_probe(run)
     return script_property(
         run, gen_tryreserve_scripts,
-        relevant=lambda f: f.kind in ("R-FAIL", "CRASH") or (f.kind == "H-FAIL" and "invalid layout" in f.text) or (f.kind == "A-FAIL" and "library panicked" in f.text and op_in(f, ("tryreserve", "ttryreserve"))),
-        rule="HashMap / HashTable histories (element sizes 0, 1, 32, 200) with try_reserve(additional) at additional in {small, around 7/8*2^k, 2^60+1, 2^61, 2^63-1, 2^63, usize::MAX, usize::MAX/size_of::<T>() +-1} with and without the allocator refusing the request; judged on the implementation: try_reserve always returns (no panic, no abort); on an error the dumped table and its block are identical to the pre-state and the operation performed no allocation, release or drop; AllocError carries exactly the refused layout; CapacityOverflow only without a refused request; every request the ledger allocator sees has a valid layout (non-zero size, power-of-two alignment, size <= isize::MAX - (align-1)); steps with representable sizes are also compared with the extracted model",
+        relevant=lambda f: f.kind in ("R-FAIL", "CRASH") or (f.kind == "K-FAIL" and "try_reserve" in f.text) or (f.kind == "H-FAIL" and "invalid layout" in f.text) or (f.kind == "A-FAIL" and "library panicked" in f.text and op_in(f, ("tryreserve", "ttryreserve"))),
+        rule="HashMap / HashTable histories (element sizes 0, 1, 32, 200) with try_reserve(additional) at additional in {small, around 7/8*2^k, 2^60+1, 2^61, 2^63-1, 2^63, usize::MAX, usize::MAX/size_of::<T>() +-1} with and without the allocator refusing the request; judged on the implementation: try_reserve always returns (no panic, no abort); on an error the dumped table and its block are identical to the pre-state and the operation performed no allocation, release or drop; AllocError carries exactly the refused layout; CapacityOverflow only without a refused request; every request the ledger allocator sees has a valid layout (non-zero size, power-of-two alignment, size <= isize::MAX - (align-1)); steps with representable sizes are also compared with the extracted model; a successful try_reserve(n) must leave room for n more elements; plus a probe of TableLayout::calculate_layout_for (hook wrapper) on ~2000 (element size, bucket count) pairs whose table size lies within 48 bytes of isize::MAX (enormous element types)",
         nontrivial_keys=("huge_capacity_request",))
 
 def gen_churn_scripts(tier, seed, variant):
@@ -797,8 +838,9 @@ def gen_entry_scripts(tier, seed, variant):
     rng = random.Random(seed)
     n = 48 if tier == "quick" else 160
     out = []
-    for i in range(n):
-        blk = gen_map.make_script(rng, f"e{seed}_{i}")
+    for i in range(n + n // 2):
+        # the last third: collision runs (wrap-around placements, tombstones, exact capacity)
+        blk = gen_map.make_script(rng, f"e{seed}_{i}") if i < n else gen_map.make_run_script(rng, f"eu{seed}_{i}")
         lines = blk.rstrip("\n").split("\n")
         res = []
         stamp = 100000
@@ -819,7 +861,11 @@ def gen_entry_scripts(tier, seed, variant):
                                        f"raw_or_insert {k} {stamp} {rng.randrange(500)}", f"raw_insert {k} {stamp} {rng.randrange(500)}",
                                        f"raw_remove {k} {stamp}", f"raw_get {k}",
                                        f"eref_or_insert {k} {stamp} {rng.randrange(500)}", f"eref_insert {k} {stamp} {rng.randrange(500)}",
-                                       f"eref_drop {k} {stamp}"]))
+                                       f"eref_drop {k} {stamp}",
+                                       f"entry_replace {k} {stamp} some {rng.randrange(500)}", f"entry_replace {k} {stamp} none 0",
+                                       f"entry_and_replace {k} {stamp} some {rng.randrange(500)}", f"entry_and_replace {k} {stamp} none 0",
+                                       f"raw_replace {k} {stamp} some {rng.randrange(500)}", f"raw_replace {k} {stamp} none 0",
+                                       f"raw_and_replace {k} {stamp} {rng.choice(['some', 'none'])} {rng.randrange(500)}"]))
         out.append("\n".join(res) + "\n")
     return "".join(out) + gen_set_scripts(tier, seed + 7, variant)
 
@@ -828,7 +874,7 @@ def check_c14(run):
     return script_property(
         run, gen_entry_scripts,
         relevant=lambda f: f.kind == "CRASH" or (f.kind in ("A-FAIL", "B-FAIL") and op_in(f, ops)),
-        rule="HashMap histories in which a third of the steps is followed by an entry-style operation on a present or absent key: entry(k).or_insert / insert / and_modify().or_insert / remove_entry / dropped unused, try_insert; plus HashSet histories with get_or_insert, get_or_insert_with, replace, entry(v).insert and `^=`; the states include growth_left = 0 (capacity() = len()), tombstone-laden tables and the unallocated singleton (counted in hard_branch_counts); every step is compared bit for bit with the extracted model and judged by the reference map, whose entry semantics are the get / insert / remove expansions; the same operations through rustc_entry (model: reserve(1) when the key is absent, then the entry operation -- also when the vacant entry is dropped unused), raw_entry_mut().from_key / from_key_hashed_nocheck, raw_entry().from_key and entry_ref (key built by From<&K>)",
+        rule="HashMap histories in which a third of the steps is followed by an entry-style operation on a present or absent key: entry(k).or_insert / insert / and_modify().or_insert / remove_entry / dropped unused, try_insert; plus HashSet histories with get_or_insert, get_or_insert_with, replace, entry(v).insert and `^=`; the states include growth_left = 0 (capacity() = len()), tombstone-laden tables and the unallocated singleton (counted in hard_branch_counts); every step is compared bit for bit with the extracted model and judged by the reference map, whose entry semantics are the get / insert / remove expansions; the same operations through rustc_entry (model: reserve(1) when the key is absent, then the entry operation -- also when the vacant entry is dropped unused), raw_entry_mut().from_key / from_key_hashed_nocheck, raw_entry().from_key and entry_ref (key built by From<&K>); replace_entry_with / and_replace_entry_with on Entry and RawEntryMut with closures returning Some (= overwrite: the primitive removes the element and puts it back, control bytes, mirror bytes and growth_left must be exactly as before) and None (= remove)",
         nontrivial_keys=("pre_growth_left_0", "tombstones_present", "small_table"))
 
 def gen_many_scripts(tier, seed, variant):
